@@ -5,6 +5,7 @@ CONSTANTS
   Steps = 2
   ClassSel = "all"
   FirstSel = "all"
+  CollectMode = "bound"
 INIT Init
 NEXT Next
 INVARIANT Explained
